@@ -55,6 +55,15 @@ CLAIMED = {
              "rule-breaking encodings. Known findings F25 (ISDN sa) and F30 (NSAP) are reported as KNOWN-FINDING.",
         technique="Coq proof (generic layout induction + table equality) + model/implementation correspondence against an independent reference encoder",
         ref="DESIGN.md section 6, C10"),
+    "C02": dict(
+        text="Kernel-checked theorem parse_packet (enc_packet p) = Ok p for EVERY well-formed packet p (any number of questions "
+             "and records, every typed RDATA variant through one layout induction, unknown-type and empty RDATA, binary labels, "
+             "OPT with extended response code, all classes / QTYPEs), built from element lemmas that hold at every offset of every "
+             "buffer; each wf clause is shown necessary by a counter-example. Tied to /repo by building seeded packets through the "
+             "public constructors, serialising and parsing them on model and implementation (bytes and parsed value compared), "
+             "with field-wise equality to the description and an independent RFC reference encoder as oracles.",
+        technique="Coq proof (element round-trip lemmas composed by induction over sections) + model/implementation correspondence",
+        ref="DESIGN.md section 6, C02"),
 }
 
 PENDING_REASON = "not claimed yet: model, theorems and correspondence slice for this property are still being built (see DESIGN.md section 10)"
